@@ -96,6 +96,20 @@ func runC15(w *mc.Worker) {
 					text, starts, ends := pr.Render(seps)
 					if !sameTokens(text, pr.Toks) {
 						w.Count("layouts-changing-the-tokens", 1)
+						// gluing two tokens with NOTHING between them may legitimately fuse them; a
+						// COMMENT between two tokens must never change them (the statement says so)
+						if dev == 1 {
+							for i := 1; i < len(seps)-1; i++ {
+								if strings.HasPrefix(seps[i], "/*") || strings.HasPrefix(seps[i], "//") {
+									prev := "?"
+									if lr := ref.Lex(pr.Toks[i-1]); len(lr.Toks) == 1 {
+										prev = lr.Toks[0].Kind
+									}
+									w.Eval(text, true, "comment-changes-tokens")
+									w.Violation("C15.comment-changes-tokens:after-"+prev, "a comment inserted between two tokens changes how the text is tokenised (the comment opener is absorbed by the token before it)", len(text), Case{Script: text})
+								}
+							}
+						}
 						return
 					}
 					var res parser.ParseResult
